@@ -56,6 +56,10 @@ def source_facts():
         # proposed fix: the marker-only list re-creates the empty stream
         "keepEmptyStream": bool(re.search(r"empty_stream\s*\(|Stream::new\s*\(", typ)),
         "marker_sites": len(re.findall(r'b"' + MARKER.decode() + '"', rdb_nc)),
+        # the model's decSnapshot takes ONE instant per key — the instant that key is loaded: the loader must read the wall clock
+        # where it turns the key's absolute deadline into a TTL (a clock read once for the whole load makes every deadline
+        # slip by the time spent on the keys before it, which only a very large file shows)
+        "clockPerKey": bool(re.search(r"SystemTime::now\(\)", exp)),
         # read_string reads in bounded chunks (since d4d929f) instead of vec![0u8; len]: the allocation bound itself is C10's
         # (loader_alloc_bounded); here it only decides which allocation trace the real loader is compared with
         "boundedRead": bool(re.search(r"read_to_end|\.take\s*\(", body("read_string") or "")) and not re.search(r"vec!\s*\[\s*0u8\s*;\s*len\s*\]", body("read_string") or ""),
@@ -969,6 +973,9 @@ def main(tier, seed):
             if f.get("match") not in c.known_hits and not fixed_by_source.get(f.get("match"), False):
                 rep.violation("known finding %s no longer reproduces although the source still looks unfixed: model/known-findings file is stale" % f["id"],
                               {"finding": f, "obligation": f.get("lean_witness")}, no_input=True)
+        if not facts["clockPerKey"]:
+            c.disagreements.append({"what": "read_key_value_with_expiry no longer reads the wall clock itself: the model's per-key load instant (decSnapshot d t') "
+                                            "is not what the loader uses — deadlines of keys late in a large file slip by the load time of the keys before them"})
         if facts["marker_sites"] < 2:
             c.disagreements.append({"what": "stream marker literal %r not found at both the writer and the loader site of rdb.rs" % MARKER.decode()})
         if c.oracle_failures:
